@@ -124,12 +124,14 @@ where
             let source_talkback: Arc<ArcSwapOption<Source<T>>> =
                 Arc::new(ArcSwapOption::from(None));
             let got_pull = Arc::new(AtomicBool::new(false));
+            let ended = Arc::new(AtomicBool::new(false));
             let talkback: Arc<Source<T>> = Arc::new(
                 {
                     #[cfg(feature = "tracing")]
                     let concat_span = concat_span.clone();
                     let source_talkback = Arc::clone(&source_talkback);
                     let got_pull = Arc::clone(&got_pull);
+                    let ended = Arc::clone(&ended);
                     move |message| {
                         instrument!(parent: &concat_span, "sink_talkback");
                         trace!("from sink: {message:?}");
@@ -140,32 +142,35 @@ where
                             Message::Data(_) => {
                                 panic!("sink must not send data");
                             },
+                            // between the end of one source and the greeting of the next there is
+                            // no source to talk to: a Pull is remembered (`got_pull`) and re-issued
+                            // when the next source greets, a disposal is remembered (`ended`) and the
+                            // next source is told to stop when it greets
                             Message::Pull => {
                                 got_pull.store(true, AtomicOrdering::Release);
-                                let source_talkback = source_talkback.load();
-                                let source_talkback =
-                                    source_talkback.as_ref().expect("source talkback not set");
-                                call!(source_talkback, Message::Pull, "to source: {message:?}");
+                                if let Some(source_talkback) = &*source_talkback.load() {
+                                    call!(source_talkback, Message::Pull, "to source: {message:?}");
+                                }
                             },
                             Message::Error(ref error) => {
-                                let source_talkback = source_talkback.load();
-                                let source_talkback =
-                                    source_talkback.as_ref().expect("source talkback not set");
-                                call!(
-                                    source_talkback,
-                                    Message::Error(Arc::clone(error)),
-                                    "to source: {message:?}"
-                                );
+                                ended.store(true, AtomicOrdering::Release);
+                                if let Some(source_talkback) = &*source_talkback.load() {
+                                    call!(
+                                        source_talkback,
+                                        Message::Error(Arc::clone(error)),
+                                        "to source: {message:?}"
+                                    );
+                                }
                             },
                             Message::Terminate => {
-                                let source_talkback = source_talkback.load();
-                                let source_talkback =
-                                    source_talkback.as_ref().expect("source talkback not set");
-                                call!(
-                                    source_talkback,
-                                    Message::Terminate,
-                                    "to source: {message:?}"
-                                );
+                                ended.store(true, AtomicOrdering::Release);
+                                if let Some(source_talkback) = &*source_talkback.load() {
+                                    call!(
+                                        source_talkback,
+                                        Message::Terminate,
+                                        "to source: {message:?}"
+                                    );
+                                }
                             },
                         }
                     }
@@ -197,6 +202,7 @@ where
                                     let i = Arc::clone(&i);
                                     let source_talkback = Arc::clone(&source_talkback);
                                     let got_pull = Arc::clone(&got_pull);
+                                    let ended = Arc::clone(&ended);
                                     let talkback = Arc::clone(&talkback);
                                     let next_ref = Arc::clone(&next_ref);
                                     move |message| {
@@ -204,6 +210,16 @@ where
                                         trace!("from source: {message:?}");
                                         match message {
                                             Message::Handshake(source) => {
+                                                if ended.load(AtomicOrdering::Acquire) {
+                                                    // the sink disposed while this source had not
+                                                    // greeted yet
+                                                    call!(
+                                                        source,
+                                                        Message::Terminate,
+                                                        "to source: {message:?}"
+                                                    );
+                                                    return;
+                                                }
                                                 source_talkback.store(Some(source));
                                                 if i.load(AtomicOrdering::Acquire) == 0 {
                                                     call!(
@@ -241,6 +257,7 @@ where
                                                 );
                                             },
                                             Message::Terminate => {
+                                                source_talkback.store(None);
                                                 i.fetch_add(1, AtomicOrdering::AcqRel);
                                                 let next_ref = next_ref.load();
                                                 let next = next_ref.as_ref().unwrap();
